@@ -176,10 +176,43 @@ def shrink(ctx, impl, isEn, cold, n, h):
     cur = nxt
   return cur
 
+def shrink_direct(impl, isEn, cold, n, h):
+  """smallest history found on which the observed trace itself violates the property (no model involved)"""
+  def cut(h):
+    obs = impl.observe(isEn, n, cold, h)
+    prob, _ = direct_checks(isEn, n, cold, h, obs)
+    if not prob: return None
+    t = int(prob.split()[1].rstrip(':'))
+    return (h[:t + 1], obs[:t + 1], prob)
+  cur = cut(h)
+  if cur is None: return None
+  budget = 400
+  size = max(1, len(cur[0]) // 2)
+  while size >= 1 and budget > 0:
+    s, progressed = 0, False
+    while s < len(cur[0]) - 1 and budget > 0:
+      hh = cur[0]
+      c = hh[:s] + hh[min(len(hh) - 1, s + size):]
+      budget -= 1
+      nxt = cut(c) if len(c) < len(hh) else None
+      if nxt is not None and len(nxt[0]) < len(hh): cur, progressed = nxt, True
+      else: s += size
+    if not progressed or size == 1: size //= 2
+  return cur
+
 def report(ctx, impl, kind, isEn, cold, n, h, why):
   name = 'RoundRobinArbiterEn' if isEn else 'RoundRobinArbiter'
   try:
-    sh_ = shrink(ctx, impl, isEn, cold, n, h)
+    if kind == 'direct':
+      d = shrink_direct(impl, isEn, cold, n, h)
+      if d is None: sh_ = None
+      else:
+        why = 'violates the property on the observed trace (' + d[2] + ')'
+        try: mod = model_trace(ctx, isEn, cold, n, d[0])
+        except Exception: mod = None
+        sh_ = (d[0], d[1], mod)
+    else:
+      sh_ = shrink(ctx, impl, isEn, cold, n, h)
   except Exception as e:
     ctx.note(f'shrinking failed: {e!r}'); sh_ = None
   if sh_ is None:
@@ -204,6 +237,7 @@ def run(ctx):
   quick = ctx.tier == 'quick'
   cases, meta = [], []
   worst_wait = {}
+  direct_bad = []
 
   def add(kind, isEn, cold, n, h, key, nontrivial, cls):
     obs = impl.observe(isEn, n, cold, h)
@@ -212,7 +246,9 @@ def run(ctx):
     prob, worst = direct_checks(isEn, n, cold, h, obs)
     worst_wait[(isEn, n)] = max(worst_wait.get((isEn, n), 0), worst)
     if prob:
-      report(ctx, impl, 'direct', isEn, cold, n, h, 'violates the property on the observed trace (' + prob + ')')
+      direct_bad.append(len(cases) - 1)
+      if len(direct_bad) <= 3:
+        report(ctx, impl, 'direct', isEn, cold, n, h, 'violates the property on the observed trace (' + prob + ')')
     return obs
 
   # (1) exhaustive single steps
@@ -248,11 +284,11 @@ def run(ctx):
 
   bad = ctx.coq_bad_indices('steps', IMPORTS, '', CASE_T, cases[:nstep], 'replay_ok c', shard=600)
   bad += [nstep + i for i in ctx.coq_bad_indices('hists', IMPORTS, '', CASE_T, cases[nstep:], 'replay_ok c', shard=8)]
-  for i in bad[:4]:
+  for i in [i for i in bad if i not in direct_bad[:3]][:4]:
     kind, isEn, cold, n, h = meta[i]
     report(ctx, impl, kind, isEn, cold, n, h, 'does not behave like the model the C19 theorems are about')
   ctx.extra.update({'cases_exhaustive_steps': nstep, 'cases_histories': len(cases) - nstep, 'simulated_cycles': impl.cycles,
-                    'disagreeing_cases': len(bad),
+                    'disagreeing_cases': len(bad), 'cases_violating_property_directly': len(direct_bad),
                     'fairness_monitor_max_wait_in_granting_cycles': {f'{"En" if k[0] else "plain"}:n{k[1]}': v for k, v in sorted(worst_wait.items())}})
   # the monitor must have been exercised up to its bound (otherwise the histories are too tame to mean anything)
   tame = [k for k, v in worst_wait.items() if v < k[1] - 1]
